@@ -8,6 +8,7 @@ import (
 	"fmt"
 	"runtime/debug"
 	"strings"
+	"sync"
 	"unicode/utf8"
 
 	"servitor/object"
@@ -133,19 +134,126 @@ func checkHistories(r *ev.Report, doc, mt string, states map[string]bool) int64 
 	return n
 }
 
+// largePart: documents whose rendering is far larger than anything the enumerations above
+// produce (tens of kilobytes to more than a megabyte of styled text), so that size
+// thresholds inside the renderers are crossed; the width bound and short render histories
+// (including the same width twice in a row) against fresh parses.
+func largePart(r *ev.Report) int64 {
+	line := strings.Repeat("word ", 15) + "end"
+	listing := func(n int) string {
+		var b strings.Builder
+		for i := 0; i < n; i++ {
+			fmt.Fprintf(&b, "%03d %s\n", i, line)
+		}
+		return b.String()
+	}
+	type doc struct{ name, mt, text string }
+	var docs []doc
+	sizes := []int{40, 150}
+	if r.Thorough() {
+		sizes = []int{40, 200, 700}
+	}
+	for _, n := range sizes {
+		docs = append(docs,
+			doc{fmt.Sprintf("html-pre-%d", n), "text/html", "<p>intro</p><pre>" + listing(n) + "</pre>"},
+			doc{fmt.Sprintf("markdown-fence-%d", n), "text/markdown", "intro\n\n```\n" + listing(n) + "```\n"})
+	}
+	docs = append(docs,
+		doc{"html-paragraphs-300", "text/html", strings.Repeat("<p>"+line+" <b>"+line+"</b></p>", 300)},
+		doc{"gemtext-pre-200", "text/gemini", "intro\n```\n" + listing(200) + "```\n"},
+		doc{"plain-200", "text/plain", listing(200)})
+	ws := []int{60, 80, 100}
+	seqs := [][]int{{80, 80}, {100, 60, 60}, {60, 100, 60}}
+	if r.Thorough() {
+		seqs = [][]int{{60}, {80}, {100}, {60, 60}, {80, 80}, {60, 100}, {100, 60}, {80, 60, 60}, {60, 60, 60}, {60, 100, 60}, {100, 100, 80}}
+	}
+	var n int64
+	var mu sync.Mutex
+	var wg sync.WaitGroup
+	for _, d := range docs {
+		d := d
+		wg.Add(1)
+		go func() {
+			defer wg.Done()
+			k := largeOne(r, d.name, d.mt, d.text, ws, seqs, &mu)
+			mu.Lock()
+			n += k
+			mu.Unlock()
+		}()
+	}
+	wg.Wait()
+	return n
+}
+
+func largeOne(r *ev.Report, name, mt, text string, ws []int, seqs [][]int, mu *sync.Mutex) (n int64) {
+	d := struct{ name, mt, text string }{name, mt, text}
+	{
+		fresh := map[int]string{}
+		bad := false
+		for _, w := range ws {
+			m, err := markup(d.text, d.mt)
+			if err != nil {
+				bad = true
+				break
+			}
+			out, pan := render(m, w)
+			n++
+			if pan != "" {
+				r.Violation("render-panic:large:"+short(d.mt), map[string]any{"doc": d.name, "mediaType": d.mt, "width": w, "msg": pan})
+				bad = true
+				break
+			}
+			fresh[w] = out
+			for ln, l := range strings.Split(oracle.Strip(out), "\n") {
+				if c := utf8.RuneCountInString(l); c > w {
+					r.Violation("width:large:"+short(d.mt), map[string]any{"doc": d.name, "mediaType": d.mt, "width": w, "line": ln, "cells": c, "msg": fmt.Sprintf("line %d has %d cells at width %d", ln, c, w)})
+					bad = true
+					break
+				}
+			}
+		}
+		if bad {
+			return n
+		}
+		mu.Lock()
+		r.Extra["large_"+d.name+"_bytes_at_80"] = len(fresh[80])
+		mu.Unlock()
+		for _, seq := range seqs {
+			m, _ := markup(d.text, d.mt)
+			for i, w := range seq {
+				out, pan := render(m, w)
+				n++
+				if pan != "" || out != fresh[w] {
+					r.Violation("history:large:"+short(d.mt), map[string]any{"doc": d.name, "mediaType": d.mt, "widths": seq[:i+1],
+						"msg": fmt.Sprintf("Render(%d) after widths %v differs from a fresh render (rendering of %d bytes)", w, seq[:i], len(fresh[w]))})
+					break
+				}
+			}
+		}
+	}
+	return n
+}
+
 func main() {
 	r := ev.New("C15", "model_checking",
 		"width: every document of the HTML forest grammar (<=2 nodes over the full label set, <=3 (quick) / <=4 (thorough) nodes over 14 representative labels), and every line sequence "+
 			"of the gemtext/Markdown/plaintext grammars (<=2 / <=3 lines), rendered through object.GetMarkup at 16 widths {1..13,79,80,81}; "+
 			"histories: explicit-state search over the render cache: state = last rendered width, transition = Render(w), all width sequences of length <=2 (quick) / <=3 (thorough) over {1,3,80,81,200} on the complete "+
-			"small document spaces, each result compared byte-for-byte with a fresh parse; distinct_nontrivial = documents with at least one rendered line break or link")
+			"small document spaces, each result compared byte-for-byte with a fresh parse; nine large documents (code listings of 40/200/700 lines in HTML and Markdown, 300 paragraphs, gemtext and plain listings) at widths 60/80/100 with 3 (quick) / 11 (thorough) short histories that repeat a width; distinct_nontrivial = documents with at least one rendered line break or link")
 	debug.SetGCPercent(800)
 	if *ev.FlagReplay != "" {
 		var d struct {
 			Doc       string `json:"doc"`
 			MediaType string `json:"mediaType"`
 		}
-		ev.LoadReplay(*ev.FlagReplay, &d)
+		key := ev.LoadReplay(*ev.FlagReplay, &d)
+		if strings.Contains(key, ":large:") {
+			largePart(r) // the large documents are generated, not stored: run the part whole
+			r.Eval(1)
+			r.Distinct("a")
+			r.Distinct("b")
+			r.Finish()
+		}
 		checkWidth(r, d.Doc, d.MediaType)
 		checkHistories(r, d.Doc, d.MediaType, map[string]bool{})
 		r.Eval(1)
@@ -241,6 +349,7 @@ func main() {
 	close(resc)
 	<-done
 	r.Eval(trans)
+	r.Eval(largePart(r))
 	r.States = int64(len(histWidths) + 1)
 	r.Transitions = trans
 	r.Traces = trans
